@@ -25,6 +25,3 @@ Definition pinned_decls_distinct : list string :=
 
 Definition ok_distinct : Prop :=
   of_file fst "distinct.go" InvDistinct.inventory = pinned_distinct /\ of_file (fun s => s) "distinct.go" InvDistinct.decls = pinned_decls_distinct.
-
-Lemma C19_inventory_distinct : InvDistinct.files = pinned_files /\ ok_distinct.
-Proof. unfold ok_distinct; repeat split; vm_compute; reflexivity. Qed.
